@@ -216,7 +216,9 @@ Step(s, a) ==
 (* Ghost state G = [fresh, appr]:                                                                      *)
 (*   fresh: requests made and not yet applied  [m, q, by (the requester)]                               *)
 (*   appr : addresses that approved (method, request) since it was requested / last applied             *)
-G0 == [fresh |-> {}, appr |-> {}]
+(*   old  : addresses whose approvals were given to an earlier request under the same (method, request   *)
+(*          id) that was withdrawn or replaced by one with other content before being applied            *)
+G0 == [fresh |-> {}, appr |-> {}, old |-> {}]
 
 Registry(m, s) == CASE m = M_CAND -> {[k |-> e.k, sp |-> e.sp] : e \in s.pool}
                     [] m = M_BLACK -> s.black      [] m = M_WHITE -> s.black
@@ -238,8 +240,12 @@ ReqOf(a) == CASE a.t = "reg"    -> [m |-> M_CAND,   q |-> a.k]
 GKey(a) == IF a.m = M_CAND THEN a.ks[1].k ELSE IF a.m \in NodeMethods THEN a.q ELSE ToString(a.id)
 FreshOf(g, m, q) == {f \in g.fresh : f.m = m /\ f.q = q}
 ApprOf(g, m, q) == LET X == {x \in g.appr : x.m = m /\ x.q = q} IN IF X = {} THEN {} ELSE Pick(X).by
-SetAppr(g, m, q, by) == LET rest == {x \in g.appr : ~(x.m = m /\ x.q = q)}
-                        IN IF by = {} THEN rest ELSE rest \cup {[m |-> m, q |-> q, by |-> by]}
+SetIn(X, m, q, by) == LET rest == {x \in X : ~(x.m = m /\ x.q = q)}
+                      IN IF by = {} THEN rest ELSE rest \cup {[m |-> m, q |-> q, by |-> by]}
+SetAppr(g, m, q, by) == SetIn(g.appr, m, q, by)
+OldOf(g, m, q) == LET X == {x \in g.old : x.m = m /\ x.q = q} IN IF X = {} THEN {} ELSE Pick(X).by
+\* the pending request under (m, q) is withdrawn or replaced: its approvals become approvals of an earlier request
+Retire(g, m, q) == [g EXCEPT !.appr = SetIn(g.appr, m, q, {}), !.old = SetIn(g.old, m, q, OldOf(g, m, q) \cup ApprOf(g, m, q))]
 Approvers(a, pre) == IF a.t = "ap" THEN {a.own} ELSE LET sq == RoundApprovers(pre) IN {sq[i] : i \in DOMAIN sq}
 
 \* id of the request a relayer / state-validator request action created (read from the counters)
@@ -253,16 +259,17 @@ GhostNext(g, pre, a, r, post) ==
     ELSE IF a.t \in {"reg", "screg", "scupd", "scquit"} THEN
         LET rq == ReqOf(a)
             same == a.t = "scquit" \/ (a.t = "scupd" /\ Rec(a) \in pre.scUpd)     \* the same request again
-        IN [fresh |-> {f \in g.fresh : ~(f.m = rq.m /\ f.q = rq.q)} \cup {[m |-> rq.m, q |-> rq.q, by |-> a.own]},
-            appr |-> IF same THEN g.appr ELSE SetAppr(g, rq.m, rq.q, {})]
+            g1 == IF same THEN g ELSE Retire(g, rq.m, rq.q)
+        IN [g1 EXCEPT !.fresh = {f \in g.fresh : ~(f.m = rq.m /\ f.q = rq.q)} \cup {[m |-> rq.m, q |-> rq.q, by |-> a.own]}]
     ELSE IF a.t \in {"relreg", "relrem", "svreg", "svrem"} THEN
         LET rq == NewIdReq(a, pre)
         IN [g EXCEPT !.fresh = @ \cup {[m |-> rq.m, q |-> rq.q, by |-> a.own]}]
     ELSE IF a.t = "unreg" THEN
-        [fresh |-> {f \in g.fresh : ~(f.m = M_CAND /\ f.q = a.k)}, appr |-> SetAppr(g, M_CAND, a.k, {})]
+        [Retire(g, M_CAND, a.k) EXCEPT !.fresh = {f \in g.fresh : ~(f.m = M_CAND /\ f.q = a.k)}]
     ELSE IF IsApprove(a) THEN
         IF Applied(a, r, pre, post)
-        THEN [fresh |-> {f \in g.fresh : ~(f.m = a.m /\ f.q = GKey(a))}, appr |-> SetAppr(g, a.m, GKey(a), {})]
+        THEN [fresh |-> {f \in g.fresh : ~(f.m = a.m /\ f.q = GKey(a))}, appr |-> SetAppr(g, a.m, GKey(a), {}),
+              old |-> SetIn(g.old, a.m, GKey(a), {})]
         ELSE [g EXCEPT !.appr = SetAppr(g, a.m, GKey(a), ApprOf(g, a.m, GKey(a)) \cup Approvers(a, pre))]
     ELSE g
 
@@ -272,9 +279,13 @@ MonC32(g, pre, a, r, post) ==
     IF a.t # "ap" THEN {}
     ELSE LET all == ApprOf(g, a.m, GKey(a)) \cup {a.own}
              n == Cardinality(all \cap ConsAddr(pre))
+             nOld == Cardinality((all \cup OldOf(g, a.m, GKey(a))) \cap ConsAddr(pre))
              thr == Ceil2of3(Cardinality(ConsAddr(pre)))
              app == Applied(a, r, pre, post)
-         IN (IF app /\ n < thr THEN {Cl("C32", "effect-below-threshold:" \o a.m)} ELSE {})
+         IN (IF app /\ n < thr
+             THEN IF nOld >= thr THEN {Cl("C32", "approvals-of-replaced-request-counted:" \o a.m)}   \* a different request
+                  ELSE {Cl("C32", "effect-below-threshold:" \o a.m)}
+             ELSE {})
             \cup (IF r \in {"ok", "hit"} /\ n >= thr /\ ~app /\ (Pending(a, pre) \/ ~HasRequestObject(a.m))
                   THEN {Cl("C32", "no-effect-at-threshold:" \o a.m)} ELSE {})
 
